@@ -301,6 +301,8 @@ def run_c02(o, tier, rng, prep):
         rng.shuffle(cases)
         cases = cases[:1000]
     cases += gen_cases_from_positions(geo)
+    # the same successors as the capture-only generator builds them (quiescence): every field of the record, not only the move
+    cases += gen_cases_from_positions(geo, mode="C")
     cc = gens.corner_capture_chains(rng)
     cc_legal = set(f for f, _, _ in gens.filter_legal([f for f, _ in cc]))
     cases += ["gen\tA\t%s\t%s" % (f, " ".join(ch)) for f, ch in cc if f in cc_legal]
@@ -341,6 +343,17 @@ def run_c13(o, tier, rng, prep):
     mm, sm = V.compare(res, model_filter=rec_no_key_no_hint, spec_filter=no_key)
     report(o, "capture-only generation along capture chains", res, mm, sm,
            nontrivial=lambda r: "moves=" in (r.get("S") or "") and not (r.get("S") or "").endswith("moves="))
+    # the same at the boards the text-move applier produces (what quiescence sees at the root of a `position ... moves ...`):
+    # double steps declined and followed by piece or king moves, en passant available, game prefixes
+    rc = ["roots\t%s\tC" % c for c in STALE_EP_SESSIONS]
+    rc += ["roots\t%s\tC" % c for c in gens.ep_via_moves(gens.ep_geometry(rng, 150 if tier == "quick" else 3000))]
+    for g in games[: (30 if tier == "quick" else 600)]:
+        for kk in range(2, len(g.moves) + 1, 5):
+            rc.append("roots\t%s\tC" % pos_cmd(g.start, g.moves[:kk]))
+    rres = V.run_cases(rc)
+    rmm, rsm = V.compare(rres)
+    report(o, "capture-only generation after position commands (boards of the text-move applier)", rres, rmm, rsm,
+           nontrivial=lambda r: (r.get("S") or "") not in ("", "roots "))
     hypothesis_obligation(o)
     o.rule = "capture-only generation at every prefix of capture chains (0-6 plies, followed through capture-only generation as quiescence does) from game positions, en-passant/promotion geometry and captures of unmoved corner rooks by every piece kind; non-trivial = at least one legal capture"
 
@@ -620,6 +633,9 @@ def run_c15(o, tier, rng, prep):
     games = game_pool(rng, 40 if tier == "quick" else 1500, 60)
     legal = positions_of_games(games)
     valid, bad = gens.fen_strings(rng, legal, 600 if tier == "quick" else 20000, 1500 if tier == "quick" else 60000)
+    # kings sharing a rank, a file or a diagonal (rare in game prefixes): the loader finds each of them
+    valid += ["8/8/8/8/8/8/R7/4K2k b - - 12 300", "2k3K1/8/8/8/8/8/8/8 w - - 0 1", "8/8/8/1K3k2/8/8/8/8 b - - 3 70",
+              "k7/8/8/8/8/8/8/K7 w - - 0 1", "7K/8/8/8/8/8/8/k7 b - - 0 1", "8/8/8/8/8/8/8/K1k5 w - - 0 1", "5k1K/8/8/8/8/8/8/8 b - - 9 9"]
     corpus = [json.loads(l) for l in open(os.path.join(V.VERIF, "corpus", "c15_regress.jsonl")) if l.strip()]
     res = V.run_cases(["fen\t" + gens.hexs(s) for s in corpus + bad])
     rejected = {s for s, r in zip(corpus + bad, res) if (r.get("I") or "").startswith("fen Err")}
@@ -644,7 +660,25 @@ def run_c15(o, tier, rng, prep):
         if expected_proj(f) != p.split(" ")[2].split("#")[0]:
             nbad += 1
             o.violation("input", "loaded position differs from the FEN: %r -> %s" % (s, p), {"fen": s, "impl": p, "expected": expected_proj(f)})
-    o.oblige("accepted and faithful on well-formed FENs", nbad == 0)
+        # the king squares the record caches are the squares of the FEN's kings (12x12 coordinates: rank 8 is row 2, file a column 2)
+        irec = (r.get("I") or "")
+        if irec.startswith("fen Ok "):
+            flds = irec[7:].split("|")
+            want = {}
+            for ri, row in enumerate(f[0].split("/")):
+                col = 0
+                for ch in row:
+                    if ch.isdigit():
+                        col += int(ch)
+                    else:
+                        if ch in "Kk":
+                            want[ch] = "%d,%d" % (2 + ri, 2 + col)
+                        col += 1
+            if len(flds) > 4 and (flds[3] != want.get("K") or flds[4] != want.get("k")):
+                nbad += 1
+                o.violation("input", "king squares recorded as %s / %s, the FEN has its kings on %s / %s (12x12 coordinates): %r" % (flds[3], flds[4], want.get("K"), want.get("k"), s),
+                            {"fen": s, "impl": irec, "expected_white_king": want.get("K"), "expected_black_king": want.get("k")})
+    o.oblige("accepted and faithful on well-formed FENs (placement, side, rights, en-passant square, king squares)", nbad == 0)
     # command-line front end: prints the error and exits normally
     if os.path.exists(V.BINARY):
         n = 0
@@ -986,6 +1020,27 @@ def run_c18(o, tier, rng, prep):
         infos = [re.sub(r" time \d+$", "", l) for l in lines if l.startswith("info")]
         ok = check_info_lines(o, case, infos, legal, mate) and ok
     o.oblige("info lines on the real binary's stdout (%d timed searches)" % len(bb), ok)
+    # finished games and forced answers: whatever is printed before `bestmove` is a well-formed info line too
+    import blackbox
+    full = re.compile(r"^info pv( [a-h][1-8][a-h][1-8])+ depth [1-9]\d* nodes \d+ score (cp -?\d+|mate -?[1-9]\d*) time \d+$")
+    okt = True
+    eng = blackbox.Engine(V.BINARY)
+    try:
+        eng.handshake()
+        for cmd, _ in TERMINAL_SESSIONS:
+            for go in ("go", "go wtime 300 btime 300 movestogo 1"):
+                eng.send(cmd)
+                eng.send(go)
+                lines = eng.read_until(lambda l: l.startswith("bestmove"), timeout=6)
+                o.evaluations += 1
+                for l in lines:
+                    if l is not None and not l.startswith("bestmove") and not full.match(l):
+                        okt = False
+                        o.violation("input", "line %r printed for a finished game is not a well-formed info line: %s | %s" % (l, cmd, go), {"case": "%s | %s" % (cmd, go), "line": l})
+        hist_add(o, "finished games on the binary")
+    finally:
+        eng.close()
+    o.oblige("nothing but well-formed info lines precedes bestmove when the game is already over (%d sessions)" % (2 * len(TERMINAL_SESSIONS)), okt)
 
 
 CYCLE_TO_ROOT_FENS = [
@@ -1214,8 +1269,50 @@ def ep_mate_sessions(o):
     return ok
 
 
+CASTLE_MATE_SESSIONS = [
+    # the side that has just castled - through the move list, so by the text-move applier - can be mated at once
+    "position fen 6k1/5pbp/8/6p1/1q5Q/8/PPPN4/R3K2R w KQ - 0 1 moves e1c1",
+    "position fen 7k/1b6/8/6q1/8/8/5PPP/R3K2R w KQ - 0 1 moves e1g1",
+    "position fen r3k2r/pppn4/8/1Q5q/6P1/8/5PBP/6K1 b kq - 0 1 moves e8c8",
+    "position fen r3k2r/5ppp/8/8/6Q1/8/1B6/7K b kq - 0 1 moves e8g8",
+]
+
+
+def castle_mate_sessions(o):
+    """mate in one against a king that has just castled in the move list: the king square the applier records is the one
+    every check test of the search looks at"""
+    import blackbox
+    ok = True
+    for cmd in CASTLE_MATE_SESSIONS:
+        fen = proj_to_fen(legal_after([cmd])[0])
+        lm = sorted(root_legal_moves([fen])[0])
+        after = [proj_to_fen(x) for x in legal_after([cmd + " " + m for m in lm])]
+        replies = root_legal_moves(after)
+        mates = {m for m, r in zip(lm, replies) if not r}
+        if not mates:
+            continue
+        eng = blackbox.Engine(V.BINARY)
+        try:
+            eng.handshake()
+            eng.send(cmd)
+            eng.send("go wtime 2000 btime 2000 movestogo 1")
+            ls = eng.read_until(lambda l: l.startswith("bestmove"), 10)
+            o.evaluations += 1
+            got = ls[-1].split(" ")[1] if ls[-1] else None
+            if got not in mates:
+                ok = False
+                o.violation("input", "mate in one against the king that has just castled is not played: %s -> %s (mating moves: %s)" % (cmd, ls[-1], ",".join(sorted(mates))),
+                            {"case": cmd, "lines": [x for x in ls if x][-4:], "mates": sorted(mates)})
+            hist_add(o, "mate in one right after castling in the move list")
+        finally:
+            eng.close()
+    return ok
+
+
 @prop("C11", "C11.v", THEOREMS["C11"], binary=True)
 def run_c11(o, tier, rng, prep):
+    okca = castle_mate_sessions(o)
+    o.oblige("a mate in one against a king that has just castled in the move list is played (all four castlings)", okca)
     okep = ep_mate_sessions(o)
     o.oblige("a mate in one that is an en-passant capture is played (position given with the double step in its move list)", okep)
     legal = gens.filter_legal(MATE_FENS)
@@ -1495,6 +1592,35 @@ def run_c09(o, tier, rng, prep):
             okd = False
             o.violation("input", "go answered after %.0f ms, plan was %d ms: %s" % (dt * 1000, plan, case), {"case": case, "ms": dt * 1000, "plan": plan})
     o.oblige("measured go->bestmove delay equals the plan up to overhead (%d timed searches on the real binary)" % len(bb), okd)
+    # small plans: the overhead allowance above would hide a floor of tens of milliseconds, so here the *minimum* delay over
+    # several tries is taken (scheduling noise only ever adds) and must be within 30 ms of the plan
+    import blackbox
+    oks = True
+    small = [("position startpos moves e2e4", "go wtime 60000 btime 30", 0), ("position startpos", "go wtime 5 btime 60000", 0),
+             ("position startpos", "go", 0), ("position startpos", "go wtime 400 btime 400", 8),
+             ("position startpos moves e2e4", "go wtime 99999 btime 130 movestogo 1", 24), ("position startpos", "go wtime 100 btime 100 winc 20 binc 900", 16)]
+    eng = blackbox.Engine(V.BINARY)
+    try:
+        eng.handshake()
+        for cmd, go, plan in small:
+            best = None
+            for _ in range(7):
+                eng.send(cmd)
+                t0 = time.time()
+                eng.send(go)
+                ls = eng.read_until(lambda l: l.startswith("bestmove"), timeout=5)
+                dt = (time.time() - t0) * 1000
+                o.evaluations += 1
+                if ls[-1] is not None:
+                    best = dt if best is None else min(best, dt)
+            if best is None or best > plan + 30 or best < plan - 2:
+                oks = False
+                o.violation("input", "plan %d ms, but the quickest of 7 answers took %s ms: %s | %s" % (plan, "no answer" if best is None else "%.1f" % best, cmd, go),
+                            {"case": "%s | %s" % (cmd, go), "plan": plan, "min_ms": best})
+            hist_add(o, "small plans timed (min of 7)")
+    finally:
+        eng.close()
+    o.oblige("small plans (0-24 ms): the quickest of 7 answers is within 30 ms of the plan", oks)
     o.rule = "clock x increment x movestogo grid {-2^127..2^127-1 incl. 99..104, 2^53+-1} x {absent,0,1,2,30,40,2^32-1} x both colours plus random values, other side's fields randomised, an unknown token inserted in 20% of the commands; non-trivial = non-zero slice"
     o.assumptions.append("IEEE-754 binary64 conformance of the CPU for - * / and of the i128->f64 conversion")
     o.trusted.append("Flocq 4.1.0 (BinarySingleNaN) as the model of binary64 arithmetic")
@@ -1753,6 +1879,10 @@ GO_CHAIN_FENS = [
     # next go, on the engine's own board, must be answered as the position after the *printed* move demands)
     "k7/8/8/8/8/7P/5pPK/6BR b - - 0 1",
     "6br/5Ppk/7p/8/8/8/8/K7 w - - 0 1",
+    # the first answer (no clock: the top-ordered move, the only capture) takes a rook on its home corner from another
+    # corner; the victim's castling right must be gone on the engine's own board when the next go arrives
+    "r3kb1r/p1ppqppp/1p3n2/8/8/6P1/PPPPPP1P/RNBQ1RKB w kq - 0 1",
+    "rnbq1rkb/pppppp1p/6p1/8/8/1P3N2/P1PPQPPP/R3KB1R b KQ - 0 1",
     # double step then en passant by the engine itself
     "4k3/8/8/8/1p6/8/P7/4K3 w - - 0 1",
     "4k3/p7/8/1P6/8/8/8/4K3 b - - 0 1",
@@ -1898,6 +2028,34 @@ def deep_search_hunt(o):
     return True
 
 
+def liveness_hunt(o, rounds=200):
+    """the harness or the model no longer builds against /repo/src, so nothing can be run in-process: look for a failing
+    input on the binary alone - a storm of searches of a few milliseconds, each of which must be answered, isready in between"""
+    import blackbox
+    storm = ["position startpos", "position startpos moves e2e4 e7e5", "position startpos moves d2d4 d7d5 c2c4",
+             "position fen r1bqkbnr/pppp1ppp/2n5/4p3/4P3/5N2/PPPP1PPP/RNBQKB1R w KQkq - 2 3"]
+    if not os.path.exists(V.BINARY):
+        return
+    eng = blackbox.Engine(V.BINARY)
+    try:
+        eng.handshake()
+        for j in range(rounds):
+            cmd = storm[j % len(storm)]
+            clock = 101 + (j * 7) % 10
+            go = "go wtime %d btime %d movestogo 1" % (clock, clock)
+            eng.send(cmd)
+            eng.send(go)
+            lines = eng.read_until(lambda l: l.startswith("bestmove"), timeout=5)
+            o.evaluations += 1
+            if lines[-1] is None or (j % 20 == 19 and not eng.isready(3)):
+                o.violation("input", "no bestmove/readyok within 5 s in a storm of 1-8 ms searches (round %d): %s | %s" % (j + 1, cmd, go),
+                            {"case": "%s | %s" % (cmd, go), "round": j + 1, "stderr": eng.stderr_text()[-300:]})
+                return
+        hist_add(o, "hunt on the binary alone: storm of 1-8 ms searches")
+    finally:
+        eng.close()
+
+
 @prop("C08", "C08.v", THEOREMS["C08"], binary=True)
 def run_c08(o, tier, rng, prep):
     import blackbox
@@ -1985,6 +2143,29 @@ def run_c08(o, tier, rng, prep):
                     eng.close()
                     eng = blackbox.Engine(V.BINARY)
                     eng.handshake()
+    finally:
+        eng.close()
+    # a storm of searches of a few milliseconds from quiet positions: improvements arrive in quick succession right at the
+    # deadline, which is where the hand-over between the two threads can block or drop
+    storm = ["position startpos", "position startpos moves e2e4 e7e5", "position startpos moves d2d4 d7d5 c2c4",
+             "position fen r1bqkbnr/pppp1ppp/2n5/4p3/4P3/5N2/PPPP1PPP/RNBQKB1R w KQkq - 2 3"]
+    eng = blackbox.Engine(V.BINARY)
+    try:
+        eng.handshake()
+        for j in range(120 if tier == "quick" else 1200):
+            cmd = storm[j % len(storm)]
+            clock = 101 + (j * 7) % 10
+            go = "go wtime %d btime %d movestogo 1" % (clock, clock)
+            eng.send(cmd)
+            eng.send(go)
+            lines = eng.read_until(lambda l: l.startswith("bestmove"), timeout=5)
+            o.evaluations += 1
+            if lines[-1] is None or (j % 20 == 19 and not eng.isready(3)):
+                ok = False
+                o.violation("input", "no bestmove/readyok within 5 s in a storm of 1-8 ms searches (round %d): %s | %s" % (j + 1, cmd, go),
+                            {"case": "%s | %s" % (cmd, go), "round": j + 1, "stderr": eng.stderr_text()[-300:]})
+                break
+        hist_add(o, "storm of 1-8 ms searches")
     finally:
         eng.close()
     o.distinct += o.hist.get("terminal", 0) + o.hist.get("non-terminal", 0)
